@@ -340,6 +340,42 @@ CLAIMED['C08']['note'] = CLAIMED['C08']['note'].replace('Open findings: D4, D16 
 CLAIMED['C05']['text'] = CLAIMED['C05']['text'] + (
     ' holds_C05 also requires, for every history, equal final costs under quiet and non-quiet, final cost = sum of the leaf edits, and '
     'the get_all_edits / edited_cost views on fresh trees to agree for both settings.')
+
+CLAIMED['C04']['text'] = CLAIMED['C04']['text'].replace(
+    "(initO contains one computed guard - a FixedKeyDictNodeEdit enters only if the sum of its children\'s initial upper bounds fits its "
+    "cost_upper_bound; it passed on every generated document but is not proved to always pass, so C04_docs is conditional on it.)",
+    "initO contains one computed guard (a FixedKeyDictNodeEdit enters only if the sum of its children\'s initial upper bounds fits its "
+    "cost_upper_bound): it is PROVED to pass for multiset-free documents whose target holds no null leaf or whose lists have default "
+    "options (C04_guard_bound_no_null / _default_lists, C04_docs_none unconditional on it) and REFUTED otherwise (C04_guard_refuted = "
+    "open finding D41: graphtage -k -l on [\"\",...] vs [null,...] crashes). IterativeTighteningSearch satisfies the contract "
+    "(C04_search, over C17\'s search model).")
+CLAIMED['C04']['text'] = CLAIMED['C04']['text'].replace(
+    'IterativeTighteningSearch/PossibleEdits and multisets with repeated elements (open finding D36) are validated by trace only.',
+    'PossibleEdits and multisets with repeated elements (open finding D36) are validated by trace only.')
+CLAIMED['C04']['note'] = CLAIMED['C04']['note'] + ' Open findings: D36, D41.'
+CLAIMED['C17']['text'] = (
+    'Theorems for all finite collections of items given as sound tightening schedules and all adversary inputs (id() tie-breaks, '
+    'interval-tree order, heap tie order), with explicit sufficient fuel: the tightening comparator terminates and agrees with final '
+    'order (C17_lt/le), min_bounded returns a minimum (C17_min), make_distinct terminates leaving every pair disjoint or both '
+    'definitive (C17_distinct), IterativeTighteningSearch.search terminates with an item of minimum final cost and bounds equal to that '
+    'single value (C17_search; C17_search_first_node: modelling only the first node of the inner loop is without loss of generality), '
+    'and bounds.sort - modelled in full as the real Fibonacci heap run under the auto-tightening comparator - returns a permutation in '
+    'non-decreasing final order (C17_sort, unconditional; C17_heap_oracle generalises the heap\'s push/pop correctness to a comparison '
+    'oracle that is only required to confirm established answers, with an example showing that hypothesis cannot be dropped). Tie: '
+    'synthetic Bounded items driven by the same schedules; every tighten event, every heap comparison and pop, and the result must '
+    'equal the model\'s.')
+CLAIMED['C17']['note'] = 'Trusted: Coq kernel + VM; hand mirror of bounds.py Range tied by correspondence; the search heaps are a list abstraction with hints.'
+CLAIMED['C18']['text'] = (
+    'Theorems over an explicit-stack model of Builder.build_tree (frames, ancestor identity scan, cycle options, placeholder) for ALL '
+    'finite object graphs: the machine refines a big-step build with a stated fuel bound and always terminates under cycle checking '
+    '(C18_machine_refines, C18_terminates); on acyclic graphs (any sharing; custom objects through pydiff; keys and set elements scalars '
+    'or sets) it builds a tree whose to_obj equals the unfolded value (tuples as lists, sets as multisets), copy equals the tree, no '
+    'placeholder and no cycle error (C18_acyclic_partial / C18_acyclic_outside_findings: the only carve-outs are exactly the open '
+    'finding classes D18, D28 - C18_domain_boundary); a graph reaching a cycle yields CycleError or, when ignored, a placeholder, incl. '
+    'cycles running only through custom objects (C18_cyclic_partial, scalar keys); json.build_tree, BasicBuilder and pydiff build the '
+    'same tree on json.build_tree\'s domain (C18_entry_points; D31 bytes, D32 cycles are its open boundary); the executable statement has '
+    'no violated clause on the model\'s prediction (C18_model_holds_*). Tie: generated graphs built as real Python objects through all '
+    'entry points under all options; tree, to_obj, copy, exception class compared.')
 NOT_YET = 'model and theorem not completed yet (DESIGN.md section 7)'
 NA = {}
 
